@@ -379,7 +379,14 @@ def o_c17(cimp, ctx):
         ops = ctx["case"]["ops"]
         bidx = [i for i, o in enumerate(ops) if o["op"] == "build"]
         me = bidx[ctx["bi"]]
-        # (a dry run only announces PERSISTENCE and records nothing, so it is not "the previous build" here)
+        # a dry run only announces PERSISTENCE and records nothing: the real build right after it (same project, same
+        # options, nothing edited) persists the task again
+        if (ops[me - 1]["op"] == "build" and pop["tasks"] == tasks and pop["cfg"]["dry_run"] and not cfg["dry_run"]
+                and all(pop["cfg"][k] == cfg[k] for k in ("force", "expression", "marker_expression")) and pc["exit"] in (0, 1)):
+            for t, o in pc["reports"]:
+                if o == O["PERSISTENCE"] and rep.get(t) == O["SKIP_UNCHANGED"]:
+                    probs.append((f"task {t} was announced as persisted by a dry run and the real build right after it reports it unchanged (the dry run recorded its states)", ()))
+        # (... so a dry run is not "the previous build" here)
         if ops[me - 1]["op"] == "build" and pop["tasks"] == tasks and not cfg["force"] and not pop["cfg"]["dry_run"]:
             byid = {x["id"]: x for x in tasks}
             for t, o in pc["reports"]:
